@@ -353,7 +353,7 @@ fn core_grid(thorough: bool) -> Vec<Case> {
             } else if thorough {
                 vec![0, 1, 2, 3]
             } else {
-                vec![1, 2]
+                vec![1, 2, 3]
             };
             for parity in parities {
                 let lmax = 3 * e as usize * b as usize + 2;
@@ -482,11 +482,65 @@ fn session_grid(thorough: bool) -> Vec<Case> {
     v
 }
 
+/// sessions mixing schemes, content encodings, TOI widths (incl. wrap of a 16-bit space and 112-bit
+/// values), profiles and multi-transfer objects
+fn mixed_grid(thorough: bool) -> Vec<Case> {
+    let mut v = Vec::new();
+    let pt = |s: Scheme| -> OtiSpec {
+        match s {
+            Scheme::NoCode => OtiSpec::new(s, 3, 2, 0, true),
+            Scheme::Raptor => OtiSpec::new(s, 2, 4, 1, true),
+            _ => OtiSpec::new(s, 4, 2, 1, true),
+        }
+    };
+    for a in ALL_SCHEMES {
+        for b in ALL_SCHEMES {
+            for c in ALL_SCHEMES {
+                if !thorough && (a as usize + 2 * b as usize + 3 * c as usize) % 4 != 0 {
+                    continue;
+                }
+                for interleave in [1u8, 2] {
+                    for multiplex in [1u32, 3] {
+                        for (ti, (bits, init)) in [(112u8, "1".to_string()), (16, "65535".to_string()), (112, ((1u128 << 112) - 2).to_string()), (48, "281474976710655".to_string())].into_iter().enumerate() {
+                            for full_fdt in [true, false] {
+                                let mut s = SessSpec::basic(OtiSpec::new(Scheme::NoCode, 1424, 64, 0, true));
+                                s.interleave = interleave;
+                                s.queues = vec![(0, multiplex)];
+                                s.toi_bits = bits;
+                                s.toi_init = Some(init.clone());
+                                s.full_fdt = full_fdt;
+                                s.rfc3926 = ti == 1;
+                                s.sct = ti != 2;
+                                let mut objs = Vec::new();
+                                for (j, sch) in [a, b, c].into_iter().enumerate() {
+                                    let mut o = ObjSpec::simple(17 + 5 * j, 30 + j as u8);
+                                    let mut oti = pt(sch);
+                                    oti.inband_fti = (j + ti) % 2 == 0;
+                                    o.oti = Some(oti);
+                                    o.cenc = [0u8, 3, 1][(j + ti) % 3];
+                                    o.text = o.cenc != 0;
+                                    o.inband_cenc = j % 2 == 0;
+                                    o.count = if full_fdt { 1 + (j as u32 % 2) } else { 1 };
+                                    o.location = format!("file:///mixed/{}/o{}", ti, j);
+                                    objs.push(o);
+                                }
+                                v.push(Case { sess: s, objs, receive_once: true, fs: false });
+                            }
+                        }
+                    }
+                }
+            }
+        }
+    }
+    v
+}
+
 pub fn run(thorough: bool) -> i32 {
     let mut rep = Report::new("C01", "exploration", if thorough { "thorough" } else { "quick" });
     let mut cases = core_grid(thorough);
     let ncore = cases.len();
     cases.extend(session_grid(thorough));
+    cases.extend(mixed_grid(thorough));
     let nsess = cases.len() - ncore;
     let cases = std::sync::Arc::new(cases);
     let results = par_map_wd(
@@ -516,7 +570,7 @@ pub fn run(thorough: bool) -> i32 {
     }
     rep.cov("evaluations", cases.len() as u64);
     rep.cov("distinct_nontrivial", distinct.len() as u64);
-    rep.cov("rule", "two exhaustive grids of real sender->receiver sessions: core grid = scheme x (E,B) x parity x every L in 0..=3EB+2 x cenc x inband_cenc x inband_fti (+ max-1/max/max+1 lengths per scheme at E=B=1); session grid = FDT mode x interleave x multiplex x 1..3 objects over 1..2 queues x transfer count x receive-once x source kind x writer kind x FDT cenc. A case is non-trivial when the sender emitted more than one packet; distinct by serialised case.");
+    rep.cov("rule", "two exhaustive grids of real sender->receiver sessions: core grid = scheme x (E,B) x parity x every L in 0..=3EB+2 x cenc x inband_cenc x inband_fti (+ max-1/max/max+1 lengths per scheme at E=B=1); session grid = FDT mode x interleave x multiplex x 1..3 objects over 1..2 queues x transfer count x receive-once x source kind x writer kind x FDT cenc; mixed grid = every ordered triple of schemes in one session x interleave x multiplex x TOI width/initial value (16-bit wrap, 48-bit, 112-bit maximum) x publish mode, with mixed cenc and signalling, both profiles. A case is non-trivial when the sender emitted more than one packet; distinct by serialised case.");
     rep.cov("exhaustive", true);
     rep.cov("core_grid_cases", ncore as u64);
     rep.cov("session_grid_cases", nsess as u64);
